@@ -14,5 +14,7 @@ CONSTANTS
   ParamKeys = {"sendDefault", "send", "tax", "burnVeto", "burnPrevote", "burnQuorum", "minDep", "erc20"}
   MaxParamChanges = 3
   Seeded = FALSE
+  Networks = {"main", "testedge1", "testedge2", "local", "other"}
+  Heights0 = {1, 2, 1000000, 5000000}
   Defects = {}
 CHECK_DEADLOCK FALSE
